@@ -243,6 +243,7 @@ func (fr *frame) runBlocks() {
 				continue
 			}
 			fr.cur = ins
+			fr.g.curFr = fr
 			p.instr++
 			if p.instr > p.fuel {
 				p.fuelOut(fr)
@@ -462,14 +463,18 @@ func (fr *frame) exec(ins ssa.Instruction) cont {
 		fr.runDefers()
 	case *ssa.Panic:
 		x := fr.get(ins.X)
-		panic(&goPanic{val: x, site: fr.site(), msg: g.w.panicString(g, x)})
+		panic(&goPanic{val: x, site: fr.stableSite(), msg: g.w.panicString(g, x)})
 	case *ssa.Send:
 		g.chanSend(fr, fr.get(ins.Chan), fr.get(ins.X))
 	case *ssa.Store:
 		fr.storeInstr(ins)
 	case *ssa.If:
 		succ := 1
-		if fr.truth(fr.get(ins.Cond)) {
+		cv := fr.get(ins.Cond)
+		if cv.R != nil && fr.tryMerge(ins, cv) {
+			return kJump
+		}
+		if fr.truth(cv) {
 			succ = 0
 		}
 		fr.prev, fr.block = fr.block, fr.block.Succs[succ]
@@ -562,7 +567,7 @@ func (fr *frame) exec(ins ssa.Instruction) cont {
 	case *ssa.MapUpdate:
 		m := fr.get(ins.Map)
 		if m.R == nil {
-			panic(&goPanic{val: g.w.prog.runtimeError("assignment to entry in nil map"), site: fr.site(), msg: "assignment to entry in nil map", runtime: true})
+			panic(&goPanic{val: g.w.prog.runtimeError("assignment to entry in nil map"), site: fr.stableSite(), msg: "assignment to entry in nil map", runtime: true})
 		}
 		m.R.(*Map).set(fr, fr.get(ins.Key), copyVal(fr.get(ins.Value)))
 	case *ssa.TypeAssert:
@@ -674,7 +679,7 @@ func (fr *frame) sliceOp(ins *ssa.Slice) Value {
 	// Go checks: 0 <= lo <= hi <= max <= cap
 	if hasMax {
 		if m, ok = fr.intBound(mx, 0, cp); !ok {
-			fr.runtimePanic(fmt.Sprintf("slice bounds out of range [::%s] with capacity %d", mx, cp))
+			fr.runtimePanic(fmt.Sprintf("slice bounds out of range [::%s] with capacity %d", sv(mx), cp))
 		}
 	}
 	if hasHi {
@@ -686,12 +691,12 @@ func (fr *frame) sliceOp(ins *ssa.Slice) Value {
 			top = m
 		}
 		if h, ok = fr.intBound(hi, 0, top); !ok {
-			fr.runtimePanic(fmt.Sprintf("slice bounds out of range [:%s] with capacity %d", hi, top))
+			fr.runtimePanic(fmt.Sprintf("slice bounds out of range [:%s] with capacity %d", sv(hi), top))
 		}
 	}
 	if hasLo {
 		if l, ok = fr.intBound(lo, 0, h); !ok {
-			fr.runtimePanic(fmt.Sprintf("slice bounds out of range [%s:%d]", lo, h))
+			fr.runtimePanic(fmt.Sprintf("slice bounds out of range [%s:%d]", sv(lo), h))
 		}
 	}
 	if isStr {
@@ -734,7 +739,7 @@ func (fr *frame) typeAssert(ins *ssa.TypeAssert) Value {
 				have = ifc.T.String()
 			}
 			msg := fmt.Sprintf("interface conversion: interface is %s, not %s", have, ins.AssertedType)
-			panic(&goPanic{val: prog.runtimeError(msg), site: fr.site(), msg: "runtime error: " + msg, runtime: true})
+			panic(&goPanic{val: prog.runtimeError(msg), site: fr.stableSite(), msg: "runtime error: " + msg, runtime: true})
 		}
 		v = zero(ins.AssertedType)
 	}
@@ -862,4 +867,178 @@ func stableInstr(ins ssa.Instruction) string {
 		return "MakeSlice"
 	}
 	return strings.TrimPrefix(fmt.Sprintf("%T", ins), "*ssa.")
+}
+
+
+// ---- if-conversion of triangles
+//
+// "if c { x = v }" (one side block that only computes pure values and stores
+// scalars, falling through to the other successor) is executed without forking:
+// stores become *p = ite(c, v, *p) and phis of the join become ite(c, a, b).
+// This removes the 2^n blow-up of flag-setting loops over symbolic input.
+
+type mergeInfo struct {
+	ok   bool
+	side int // which successor is the side block (0: then, 1: else)
+}
+
+func isScalarType(t types.Type) bool {
+	b, ok := t.Underlying().(*types.Basic)
+	if !ok {
+		return false
+	}
+	return b.Info()&(types.IsInteger|types.IsBoolean) != 0
+}
+
+func (prog *Program) mergeable(ins *ssa.If) mergeInfo {
+	if v, ok := prog.mergeCache.Load(ins); ok {
+		return v.(mergeInfo)
+	}
+	blk := ins.Block()
+	res := mergeInfo{}
+	for side := 0; side < 2; side++ {
+		sb := blk.Succs[side]
+		join := blk.Succs[1-side]
+		if len(sb.Preds) != 1 || len(sb.Succs) != 1 || sb.Succs[0] != join || sb == join || sb == blk {
+			continue
+		}
+		good := true
+		for _, in := range sb.Instrs {
+			switch in := in.(type) {
+			case *ssa.Store:
+				if !isScalarType(in.Val.Type()) {
+					good = false
+				}
+			case *ssa.FieldAddr, *ssa.Jump, *ssa.DebugRef, *ssa.ChangeType:
+			case *ssa.BinOp:
+				switch in.Op {
+				case token.QUO, token.REM, token.SHL, token.SHR:
+					good = false
+				}
+				if !isScalarType(in.X.Type()) {
+					good = false
+				}
+			case *ssa.UnOp:
+				if in.Op == token.MUL || in.Op == token.ARROW {
+					good = false
+				}
+			case *ssa.Convert:
+				if !isScalarType(in.Type()) || !isScalarType(in.X.Type()) {
+					good = false
+				}
+			default:
+				good = false
+			}
+		}
+		// every phi of the join must be scalar
+		for _, in := range join.Instrs {
+			phi, ok := in.(*ssa.Phi)
+			if !ok {
+				break
+			}
+			if !isScalarType(phi.Type()) {
+				good = false
+			}
+		}
+		if good {
+			res = mergeInfo{ok: true, side: side}
+			break
+		}
+	}
+	prog.mergeCache.Store(ins, res)
+	return res
+}
+
+func (fr *frame) tryMerge(ins *ssa.If, cv Value) bool {
+	p := fr.g.p
+	t := cv.term()
+	if _, ok := p.decided[t]; ok {
+		return false
+	}
+	mi := fr.g.w.prog.mergeable(ins)
+	if !mi.ok {
+		return false
+	}
+	blk := ins.Block()
+	sb := blk.Succs[mi.side]
+	join := blk.Succs[1-mi.side]
+	cond := t
+	if mi.side == 1 {
+		cond = p.ts.Not(t)
+	}
+	// evaluate the side block; FieldAddr on nil would panic: bail out before any effect
+	for _, in := range sb.Instrs {
+		if fa, ok := in.(*ssa.FieldAddr); ok {
+			// operands defined in the side block itself are FieldAddr results (non-nil)
+			if _, local := fr.info.idx[fa.X]; local {
+				if x := fr.get(fa.X); x.K != KPtr || x.R == nil {
+					return false
+				}
+			}
+		}
+	}
+	ite := func(a, b Value) Value { // cond ? a : b
+		if a.K == KBool {
+			return p.norm(mkTermBool(p.ts.Ite(cond, p.ts.toTerm(a), p.ts.toTerm(b))))
+		}
+		return p.norm(mkTermInt(p.ts.Ite(cond, p.ts.toTerm(a), p.ts.toTerm(b))))
+	}
+	for _, in := range sb.Instrs {
+		fr.cur = in
+		p.instr++
+		switch in := in.(type) {
+		case *ssa.Store:
+			addr := fr.get(in.Addr).ptr()
+			if addr == nil {
+				fr.runtimePanic("invalid memory address or nil pointer dereference")
+			}
+			if gl, ok := in.Addr.(*ssa.Global); ok {
+				fr.g.w.noteGlobalStore(fr.g, gl, addr)
+			}
+			old := *addr
+			nv := fr.get(in.Val)
+			if (old.K != KInt && old.K != KBool) || old.K != nv.K {
+				panic("engine: tryMerge store of non-scalar")
+			}
+			*addr = ite(nv, old)
+		case *ssa.Jump, *ssa.DebugRef:
+		default:
+			fr.exec(in)
+		}
+	}
+	// phis of the join
+	var idxIf, idxSide = -1, -1
+	for i, pred := range join.Preds {
+		if pred == blk {
+			idxIf = i
+		}
+		if pred == sb {
+			idxSide = i
+		}
+	}
+	var vals []Value
+	var phis []*ssa.Phi
+	for _, in := range join.Instrs {
+		phi, ok := in.(*ssa.Phi)
+		if !ok {
+			break
+		}
+		a := fr.get(phi.Edges[idxSide])
+		b := fr.get(phi.Edges[idxIf])
+		vals = append(vals, ite(a, b))
+		phis = append(phis, phi)
+	}
+	for i, phi := range phis {
+		fr.set(phi, vals[i])
+	}
+	fr.prev, fr.block = nil, join
+	p.merges++
+	return true
+}
+
+func sv(v Value) string {
+	if v.K == KInt && v.R == nil {
+		return fmt.Sprintf("%d", sext64(v.N, v.W))
+	}
+	return "sym"
 }
